@@ -402,6 +402,47 @@ def run(world, rep, tier, only=None):
                    (ct.block_end(hb).line, _fmt_lin(trip), _fmt_lin(lf)))
     rep.floor("C05.i counting loops behind a capacity test in calculate_tree", n_lp, 2)
 
+    # ------------------------------------------------------------------ C05.j an inline directory whose EA part holds exactly one entry is healthy
+    # pass 2 treats the EA part of an inline directory as too small when it cannot hold a directory entry
+    # (EXT2_DIR_REC_LEN(1)), offers PR_2_BAD_INLINE_DIR_SIZE and truncates to the in-inode part.  A part of exactly that
+    # size holds one entry: at equality neither the problem nor the truncation is reachable.
+    plib = world.program("e2fsck", plain=True)
+    p2 = {f.name: f for f in plib.fns_in_file("e2fsck/pass2.c")}
+    n_eq = 0
+
+    def is_cmp(a0):
+        return isinstance(a0, dict) and a0.get("k") == "b" and a0.get("o") in ("<", "<=", ">", ">=") and "EXT2_DIR_REC_LEN" in T.macros(a0)
+    # helpers of the file that answer the question with `return <comparison>`: name -> value returned at equality
+    answers = {}
+    for g in p2.values():
+        for r_ in g.events("R"):
+            x = T.strip(r_.ev.get("x") or {})
+            if is_cmp(x):
+                answers[g.name] = x["o"] in ("<=", ">=")
+    for fname, is_target in (("check_dir_block", lambda f, n: is_call(n, "fix_problem") and "PR_2_BAD_INLINE_DIR_SIZE" in T.macros(arg(n, 1) or {})),
+                             ("fix_inline_dir_size", lambda f, n: n.ev and n.ev["e"] == "S" and "EXT4_MIN_INLINE_DATA_SIZE" in T.macros(n.ev.get("rhs") or {})
+                              and T.strip(n.ev["rhs"]).get("k") != "b")):
+        f = p2[fname]
+        targets = [n for n in f.nodes() if n.ev and is_target(f, n)]
+        for b in sorted(f.blocks):
+            lit = f.literal(b)
+            a0 = T.strip(lit[0]) if lit else None
+            if is_cmp(a0):
+                holds_at_eq, shown = a0["o"] in ("<=", ">="), T.pp(a0)[:60]
+            elif isinstance(a0, dict) and a0.get("k") == "c" and a0.get("fn") in answers:
+                holds_at_eq, shown = answers[a0["fn"]], "%s() [returns %d at equality]" % (a0["fn"], answers[a0["fn"]])
+            else:
+                continue
+            n_eq += 1
+            end_ = f.block_end(b)
+            taken = [m for (m, si) in f.succ(end_) if ((si == 0) == lit[1]) == holds_at_eq]
+            r = f.reach(taken)
+            hit = [t_.line for t_ in targets if t_ in r]
+            rep.ob("C05.j", site(f, "a part of exactly one entry's size is not too small@%d" % (end_.line - f.raw.get("line", 0))), not hit,
+                   "`%s`: with the two sides equal control goes where neither PR_2_BAD_INLINE_DIR_SIZE nor the truncation lies: %s" %
+                   (shown, hit))
+    rep.floor("C05.j comparisons with EXT2_DIR_REC_LEN in the inline directory checks", n_eq, 2)
+
 
 def _fmt_lin(f):
     return " + ".join(("%s" % v if k == 1 else ("%s" % k if v == 1 else "%d*%s" % (v, k))) for k, v in sorted(f.items(), key=lambda kv: str(kv[0])) if v != 0) or "0"
